@@ -103,8 +103,10 @@ def open_registry(filename, clear=False):
         else:
             acc += line
         try:
-            (key, value) = re.split(r'(?<!\\): ', acc, 1)
-            key = key.strip()
+            # An even number of backslashes before the separator are
+            # escaped backslashes that end the key, not an escaped colon.
+            (key, slashes, value) = re.split(r'(?<!\\)((?:\\\\)*): ', acc, 1)
+            key = (key + slashes).strip()
             value = value.strip('\r\n')
             value = decoder(value)[0]
             acc = ''
